@@ -373,6 +373,19 @@ pub fn unverify(header: &mut ExtendedHeader) {
         }),
     );
 
+    // The commit has to come from the new validator
+    match header.commit.signatures[0] {
+        CommitSig::BlockIdFlagAbsent => {}
+        CommitSig::BlockIdFlagNil {
+            validator_address: ref mut address,
+            ..
+        }
+        | CommitSig::BlockIdFlagCommit {
+            validator_address: ref mut address,
+            ..
+        } => *address = validator_address,
+    }
+
     hash_and_sign(header, &key);
 
     if was_invalidated {
